@@ -13,6 +13,11 @@ import time
 VERIF = os.path.dirname(os.path.dirname(os.path.abspath(__file__)))
 
 WHAT = {
+    "C01": ("cola.ops.operator_base.LinearOperator.__matmul__", "A @ X equals the dense matrix times X, in the promoted dtype class, for every operand dtype and rank; the operand is unchanged",
+            "one operator of every constructible kind and shape variant (n = 3), float64 and complex128 payloads; operands float32 / float64 / complex128, vectors and two-column blocks"),
+    "C03": ("cola.fns.add", "algebraic expressions act as the same expression on the dense matrices; operands unchanged",
+            "sums / differences / products / scalar multiples and divisions / Kronecker products and sums / block diagonals over Dense, Diagonal, Identity, ScalarMul, Triangular, real and complex, "
+            "mixed dtypes, n <= 4"),
     "C06": ("cola.linalg.inverse.inv.inv", "A (inv(A) b) = b per column, dense form, transpose and left product on the direct paths",
             "Dense / PSD / Triangular / Diagonal / ScalarMul / Identity / Permutation / Kronecker / BlockDiag / Product / scalar multiples, real and complex, n <= 12; Auto, LU, Cholesky, CG; "
             "vectors and blocks whose column norms spread over 9 orders of magnitude"),
@@ -139,7 +144,74 @@ def main():
                 return None
             found(clause="no exception", input=label, observed=f"{type(e).__name__}: {str(e)[:200]}", expected="a result")
 
-    if prop == "C06":
+    if prop == "C01":
+        from vcgen import kinds as KK
+        for kind in sorted(KK.all_operator_kinds()):
+            if kind in ("ConvolveND", "Sparse"):
+                continue
+            for variant in KK.VARIANTS.get(kind, ["square"]):
+                for dt in (np.float64, np.complex128):
+                    try:
+                        op = KK.make(kind, rng, 3, dt, variant)
+                    except Exception:
+                        continue
+                    name = f"{kind}[{variant}] {np.dtype(dt).name}"
+                    D = attempt(f"{name}.to_dense()", lambda: dn(op))
+                    if D is None:
+                        continue
+                    for xdt in (np.float32, np.float64, np.complex128):
+                        for nd in (1, 2):
+                            shp = (op.shape[1], 2) if nd == 2 else (op.shape[1],)
+                            X = (rnd(*shp, cplx=xdt == np.complex128)).astype(xdt)
+                            X0 = X.copy()
+                            inp = f"{name} @ ({np.dtype(xdt).name} {'block' if nd == 2 else 'vector'})"
+                            out = attempt(inp, lambda: np.asarray(op @ X))
+                            if out is None:
+                                continue
+                            n_cases[0] += 1
+                            ref = D @ X0
+                            tol = 1e-4 if xdt == np.float32 else 1e-9
+                            if out.shape != ref.shape or not np.allclose(out, ref, rtol=tol, atol=tol):
+                                found(clause="A @ X equals the dense matrix times X", input=inp, observed=f"shape {out.shape}, relative deviation {rel(out, ref):.2e}", expected=f"shape {ref.shape}, <= {tol:g}")
+                            if np.iscomplexobj(out) != np.iscomplexobj(ref) and kind not in ("Identity", "Permutation"):       # Identity / Permutation: known finding C01-dtype-identity-permutation
+                                found(clause="the result has the promoted dtype class of the dense computation", input=inp, observed=str(out.dtype), expected=str(ref.dtype))
+                            if not np.array_equal(X, X0):
+                                found(clause="the operand array is unchanged", input=inp, observed="modified", expected="bit-identical")
+    elif prop == "C03":
+        for cplx in (False, True):
+            t = "complex" if cplx else "real"
+            A, B = pD(rnd(3, 3, cplx=cplx)), pD(rnd(3, 3))
+            Dg, Tr = pDiag(rnd(3, cplx=cplx)), pTri(rnd(3, 3, cplx=cplx))
+            I3 = (Identity((3, 3), np.complex128 if cplx else np.float64), np.eye(3))
+            Sc = (ScalarMul(1.5 - (0.5j if cplx else 0), (3, 3), np.complex128 if cplx else np.float64), (1.5 - (0.5j if cplx else 0)) * np.eye(3))
+            c = (2.0 - 1j) if cplx else -2.0
+            exprs = [("A + B", (A[0] + B[0], A[1] + B[1])), ("I + A", (I3[0] + A[0], I3[1] + A[1])), ("A + I + Diagonal", (A[0] + I3[0] + Dg[0], A[1] + I3[1] + Dg[1])),
+                     ("A - B", (A[0] - B[0], A[1] - B[1])), ("-A", (-A[0], -A[1])), ("c * A", (c * A[0], c * A[1])), ("A * c", (A[0] * c, A[1] * c)), ("A / c", (A[0] / c, A[1] / c)),
+                     ("c * (A + B)", (c * (A[0] + B[0]), c * (A[1] + B[1]))), ("A @ B", (A[0] @ B[0], A[1] @ B[1])), ("A @ Diagonal @ Triangular", (A[0] @ Dg[0] @ Tr[0], A[1] @ Dg[1] @ Tr[1])),
+                     ("ScalarMul @ A", (Sc[0] @ A[0], Sc[1] @ A[1])), ("(A + B) @ (I + Diagonal)", ((A[0] + B[0]) @ (I3[0] + Dg[0]), (A[1] + B[1]) @ (I3[1] + Dg[1]))),
+                     ("kron(A, B)", (cola.kron(A[0], B[0]), np.kron(A[1], B[1]))), ("kron(A, kron(B, Diagonal))", (cola.kron(A[0], cola.kron(B[0], Dg[0])), np.kron(A[1], np.kron(B[1], Dg[1])))),
+                     ("kron(kron(A, B), Diagonal)", (cola.kron(cola.kron(A[0], B[0]), Dg[0]), np.kron(np.kron(A[1], B[1]), Dg[1]))),
+                     ("kronsum(A, B)", (cola.kronsum(A[0], B[0]), np.kron(A[1], np.eye(3)) + np.kron(np.eye(3), B[1]))),
+                     ("block_diag(A, Diagonal)", (cola.block_diag(A[0], Dg[0]), scipy.linalg.block_diag(A[1], Dg[1]))), ("Diagonal @ Diagonal", (Dg[0] @ Dg[0], Dg[1] @ Dg[1])),
+                     ("I @ A", (I3[0] @ A[0], A[1])), ("A @ I", (A[0] @ I3[0], A[1]))]
+            for en, (op, ref) in exprs:
+                for xn, X in (("real block", rnd(op.shape[1], 2)), ("complex vector", rnd(op.shape[1], cplx=True))):
+                    inp = f"({en}) @ ({xn}), {t} operands"
+                    X0 = X.copy()
+                    out = attempt(inp, lambda: np.asarray(op @ X))
+                    if out is None:
+                        continue
+                    n_cases[0] += 1
+                    if rel(out, ref @ X0) > 1e-9:
+                        found(clause="the expression acts as the same expression on the dense matrices", input=inp, observed=f"relative deviation {rel(out, ref @ X0):.2e}", expected="<= 1e-9")
+                    if not np.array_equal(X, X0):
+                        found(clause="the operand array is unchanged by the product", input=inp, observed="the array passed in was modified", expected="bit-identical")
+                dd = attempt(f"({en}).to_dense()", lambda: dn(op))
+                if dd is not None and rel(dd, ref) > 1e-9:
+                    found(clause="dense form of the expression", input=f"({en}).to_dense(), {t} operands", observed=f"relative deviation {rel(dd, ref):.2e}", expected="<= 1e-9")
+                if dd is not None and np.iscomplexobj(ref) != np.iscomplexobj(dd):
+                    found(clause="dtype class of the expression", input=f"({en}).to_dense(), {t} operands", observed=str(dd.dtype), expected="complex" if np.iscomplexobj(ref) else "real")
+    elif prop == "C06":
         from cola.linalg.inverse.inv import inv
         from cola.linalg.decompositions.decompositions import LU, Cholesky
         from cola.linalg.inverse.cg import CG
